@@ -23,6 +23,8 @@ TRUSTED = ["harness/translate_kernel.py: fail-closed ast translator of _find_pro
            "CPython heapq contract", "str(float) / configparser.getfloat round trip is the identity (exercised on every saved probability)",
            "the saved probability is that of the popped, un-guessed pre-terminal (session loop, see C12)"]
 ASSUMES = ["ruleset well-formed (wf)", "min_probability = 0.0 (PcfgQueue never changes it)"]
+import cli_tie as _cli_tie
+TRUSTED = TRUSTED + [_cli_tie.TRUSTED]
 
 
 def cut_points(U):
@@ -275,9 +277,17 @@ def run(ctx):
     corr.append(kernel_tie.obligation())
     import queue_tie
     corr.append(queue_tie.obligation())
+    # translator tie of main / load_save (the resume decision, the uuid test, the save file name, what the restored session
+    # is given) + its correspondence against the real functions
+    import cli_tie
+    corr += cli_tie.obligations("C08")
+    c2, v2, st = cli_tie.run(ctx, "C08", n_saveload=ctx.scale(30, 200), n_main=ctx.scale(70, 500))
+    corr += c2
+    vio += v2
+    dist.update(st)
     rule = ("random tie-rich rulesets (as C01, <= %d pre-terminals); for EVERY cut k the state a real PcfgQueue saves after "
             "its (k+1)-th pop is restored by a new PcfgQueue and run to exhaustion; oracle against the uninterrupted run for "
-            "every k; plus two-cycle histories and the uuid refusal through the CLI; non-trivial = the saved probability is "
+            "every k; plus two-cycle histories and the uuid refusal through the CLI, and generated command lines / save files / ruleset uuids run through the real main and load_save (recording stand-ins, harness/cli_tie.py) against the model; non-trivial = the saved probability is "
             "shared by >= 2 pre-terminals or a restored node has >= 2 parents; distinct by (tables, saved probability); plus the "
             "deep-restore family (not counted as non-trivial): 1-2 base structures over two variables of %d-%d groups, save state "
             "built directly at a cell far down both lists (restore walk deeper than the longest list + 100 in %d cases, deepest "
@@ -292,6 +302,9 @@ def replay(ctx, data):
     inp = data.get("input") or {}
     if inp.get("deep"):
         return deep_restore.replay(ctx, inp)
+    if inp.get("cli") in ("parse", "main", "saveload"):
+        import cli_tie
+        return cli_tie.replay(ctx, "C08", inp)
     if inp.get("cli") == "main-history":
         code = common.copy_code_tree(common.scratch())
         v, _ = main_history(ctx, code, inp["ruleset"], inp["ruleset"].get("name", "H0"))
